@@ -19,6 +19,10 @@ def _work(job):
     return {'seed': s, 'family': family, 'text': '', 'results': [
         {'pred': '*', 'status': 'harness_error', 'why': 'generator: ' + traceback.format_exc()[-800:]}]}
   kk = K if K is not None else case.K
+  if getattr(case, 'rec_mode', 'exact') == 'contain':
+    out = tv.validate_contain(case, prop, K=kk, timeout_ms=timeout_ms)
+    out['seed'] = s
+    return out
   out = tv.validate_case(case, prop, None, K=kk, timeout_ms=timeout_ms)
   # programs that blow the slot budget are retried on a smaller database
   while kk > 1 and any(r['status'] == 'not_encodable' and 'slot budget' in r.get('why', '')
